@@ -24,13 +24,15 @@ Loads == { [doc |-> "keys", keys |-> <<K1>>], [doc |-> "single", keys |-> <<K1b>
            [doc |-> "keys", keys |-> <<KRsa, Bad2, K1>>], [doc |-> "nonjson", keys |-> <<>>],
            [doc |-> "keys", keys |-> <<>>] }
 
-Readback == <<[op |-> "ItemGet", ring |-> 0, index |-> 0], [op |-> "ItemGet", ring |-> 0, index |-> 1],
-              [op |-> "ItemGet", ring |-> 0, index |-> 2], [op |-> "ItemGet", ring |-> 0, index |-> 3],
+\* the read-back starts and ends with a get at index 2 and is not ascending: an implementation that remembers where
+\* the previous get stopped is asked for the same or a higher index right after the list has changed underneath
+Readback == <<[op |-> "ItemGet", ring |-> 0, index |-> 2], [op |-> "ItemGet", ring |-> 0, index |-> 3],
+              [op |-> "ItemGet", ring |-> 0, index |-> 1], [op |-> "ItemGet", ring |-> 0, index |-> 0],
               [op |-> "ItemGet", ring |-> 0, index |-> 7],
               [op |-> "ItemGet", ring |-> 0, index |-> 0, hi |-> 1], [op |-> "ItemGet", ring |-> 0, index |-> 1, hi |-> 5],
               [op |-> "Count", ring |-> 0], [op |-> "Find", ring |-> 0, kid |-> "k1"],
               [op |-> "Find", ring |-> 0, kid |-> "k2"], [op |-> "Find", ring |-> 0, kid |-> "k"], [op |-> "Find", ring |-> 0, kid |-> "kbad"],
-              [op |-> "ErrAny", ring |-> 0]>>
+              [op |-> "ErrAny", ring |-> 0], [op |-> "ItemGet", ring |-> 0, index |-> 1], [op |-> "ItemGet", ring |-> 0, index |-> 2]>>
 
 Rec(op) == hist' = hist \o <<op>> \o Readback
 
